@@ -966,6 +966,13 @@ def _one(ctx, res, prop, name, cap, observer, oracles=(), driver=True):
     if 'record' in opts:
         m.setPSDrecording(True)
     pbm0 = _pbm_config(m)          # the configuration as the user left it (after every setter of the scenario)
+    if 'stop' in opts:
+        # `@stop`: a stopping condition that IS met during the run (the run ends by the condition, not by the step cap): the
+        # step that ends the run is a step like any other - row appended, distribution updated, coupled models updated
+        from kawin.precipitation.StoppingConditions import PrecipitateDensityCondition, VolumeFractionCondition, Inequality
+        sc = (PrecipitateDensityCondition(Inequality.GREATER_THAN, 10 ** rng.uniform(9, 16)) if rng.random() < 0.5
+              else VolumeFractionCondition(Inequality.GREATER_THAN, 10 ** rng.uniform(-16, -10)))
+        m.addStoppingCondition(sc, 'or')
     rec = attach(m, capture_setup=not m._isSetup)
     try:
         solver = 'rk4' if 'rk4' in opts else 'euler'
